@@ -13,6 +13,13 @@ import (
 	"golang.org/x/tools/go/packages"
 )
 
+// verifMethodDecl: a method with a receiver (never a custom function) carrying doc lines
+func verifMethodDecl(name string, doc ...string) *ast.FuncDecl {
+	fd := verifFuncDecl(name, doc...)
+	fd.Recv = &ast.FieldList{List: []*ast.Field{{Type: &ast.Ident{Name: "Helper"}}}}
+	return fd
+}
+
 func verifFuncDecl(name string, doc ...string) *ast.FuncDecl {
 	fd := &ast.FuncDecl{Name: &ast.Ident{Name: name}, Type: &ast.FuncType{}}
 	if len(doc) > 0 {
@@ -29,7 +36,9 @@ func VerifHarness_C19_LocalConfig() {
 	// two packages with the same package name; a function name that exists in both
 	p1 := &packages.Package{Name: "conv", PkgPath: "example.org/a/conv", Syntax: []*ast.File{{Decls: []ast.Decl{
 		verifFuncDecl("Shared"),
+		verifMethodDecl("Shared", "// goverter:context receiverOnly"),
 		verifFuncDecl("OnlyA", "// OnlyA converts.", "// goverter:context first"),
+		verifMethodDecl("OnlyA", "// goverter:context other"),
 	}}}}
 	p2 := &packages.Package{Name: "conv", PkgPath: "example.org/b/conv", Syntax: []*ast.File{{Decls: []ast.Decl{
 		verifFuncDecl("Shared", "//goverter:context second", "// goverter:context third"),
